@@ -24,6 +24,9 @@ Space (every member is visited, nothing sampled):
              token set first, larger first, equal); three pairs sharing the template instances themselves
              (refused loudly by the library: counted, nothing to judge).  Every parser of a sequence is
              judged on all its values: it must behave as if built from fresh objects.
+             A family of sequences with overlapping alternatives: '@' ProdSequence(LONG, SHORT) ';' with
+             LONG -> SHORT ':' SHORT declared first, under symbol names whose alphabetical order agrees /
+             disagrees with the declared order, SHORT a terminal or a non-terminal, both declaration orders.
              A "repeated optional symbol" family: DECL -> WORD X ':' WORD X Y ';' with the same optional list /
              optional map / bracket-less list symbol X twice in one production, every occurrence present or
              absent, in both declaration orders.
@@ -32,8 +35,9 @@ Space (every member is visited, nothing sampled):
   text     : the data rendered with a mixed gap layout (blanks, line breaks, end-of-line and multi-line
              comments, nothing); values of <= 3 nodes additionally with the 'exotic' layout
              (form feed / U+2028 as blanks, inside multi-line comments and inside one-line comments whose
-             remaining text would parse as further items) and values of <= 3 nodes with every uniform
-             layout; with a final delimiter in no / every (thorough: also only in the inner) non-empty
+             remaining text would parse as further items), with the 'commented-copy' layout (after every line a
+             multi-line comment spanning whole lines that holds a character-for-character copy of that live
+             line) and with every uniform layout; with a final delimiter in no / every (thorough: also only in the inner) non-empty
              delimited container
 Oracle: models/templates.py — the generating data is the expected result; the cleaned tree is
 normalised to plain Python data and compared (source order, last value of a repeated key, [] / {} for
@@ -90,6 +94,11 @@ REQUIRED_FEATURES = [
     "mopt:brackets", "mopt:no-brackets", "mopt:afd-true", "mopt:afd-false", "mopt:optional",
     "mopt:key-nonterminal", "mopt:key-symbol-is-value-symbol", "lopt:item-symbol-is-a-sequence",
     "row", "list-in-row", "map-in-row", "seq-in-row", "fd:after-last-row", "order:top-down", "order:bottom-up",
+    "family:sequence-with-overlapping-alternatives", "overlap:declared-order-is-alphabetical",
+    "overlap:declared-order-is-not-alphabetical", "overlap:short-alternative-is-a-terminal",
+    "overlap:short-alternative-is-a-non-terminal", "overlap:long-alternative-matched",
+    "overlap:short-alternative-matched", "layout:commented-copy",
+    "gap:multi-line-comment-with-copy-of-an-earlier-live-line",
     "family:repeated-optional-symbol", "repeated-optional:list-symbol", "repeated-optional:map-symbol",
     "repeated-optional:bare-symbol", "repeated-optional:first-present-second-absent",
     "repeated-optional:first-absent-second-present", "repeated-optional:first-absent-second-absent",
@@ -137,11 +146,11 @@ SPAN = {"COMMENT_ML": r"(?P<BODY>.*?)\*/"}
 _TIERS = {
     # layouts: on every value / additionally on values of <= layout_size nodes
     "quick": {"size": 4, "depth": 3, "width": 3, "big_size": 0,
-              "layouts": ("mixed",), "more_layouts": ("exotic", "tight", "newline", "comment"), "layout_size": 3,
+              "layouts": ("mixed",), "more_layouts": ("exotic", "commented-copy", "tight", "newline", "comment"), "layout_size": 3,
               "fd": (("all", "tight"),), "big_fd": (), "bottom_up_layouts": ("mixed",), "stmt_size": 3,
               "stmt_big_size": 0, "anyx_size": 4},
     "thorough": {"size": 4, "depth": 4, "width": 4, "big_size": 5,
-                 "layouts": ("mixed",), "more_layouts": ("exotic", "tight", "space", "newline", "comment"),
+                 "layouts": ("mixed",), "more_layouts": ("exotic", "commented-copy", "tight", "space", "newline", "comment"),
                  "layout_size": 3, "fd": (("all", "tight"), ("inner", "exotic")), "big_fd": (("all", "tight"),),
                  "bottom_up_layouts": ("mixed", "exotic"), "stmt_size": 3, "stmt_big_size": 4, "anyx_size": 5},
 }
@@ -212,7 +221,8 @@ def shards(tier):
                 [("stmt", dflt[0], dflt[1], sv, order) for sv in SEQ_VARIANTS for order in ORDERS] +
                 [("stmt", lk, mk, "direct", "top-down") for lk, mk in small[-N_CROSSINGS:]] +
                 [("anyx", list(tn), sh) for tn, sh in anyx_sequences()] +
-                [("decl", v, o) for v in DECL_VARIANTS for o in ORDERS])
+                [("decl", v, o) for v in DECL_VARIANTS for o in ORDERS] +
+                [("overlap", list(nm), o) for nm in OVERLAP_NAMES for o in ORDERS])
     # thorough: the full product with the sequence over the template symbols; the sequence over VALUE and
     # the bottom-up declaration order with the core (= quick) grammar set; values of big_size nodes on
     # the core set
@@ -227,6 +237,7 @@ def shards(tier):
     sh += [("stmtbig", lk, mk, "direct", "top-down") for lk, mk in [dflt] + big[-N_CROSSINGS:]]
     sh += [("anyx", list(tn), sh_mode) for tn, sh_mode in anyx_sequences()]
     sh += [("decl", v, o) for v in DECL_VARIANTS for o in ORDERS]
+    sh += [("overlap", list(nm), o) for nm in OVERLAP_NAMES for o in ORDERS]
     return sh
 
 
@@ -637,6 +648,80 @@ def run_decl_shard(shard, tier, acc):
     acc.sample({"family": "decl", "variant": variant, "order": order, "data": decl_values(variant)[7]})
 
 
+# ------------------------------------------------------------------------------- overlapping alternatives
+# E -> '@' SEQ ';'   SEQ = ProdSequence(LONG, SHORT)   LONG -> SHORT ':' SHORT   (SHORT -> WORD, or WORD itself)
+# Both alternatives can start with the same token; the declared order (longer first) is the priority.  The
+# symbol names are chosen so that their alphabetical order agrees / disagrees with the declared order.
+OVERLAP_NAMES = (("PAIR", "NAME"), ("ASSIGN", "WORDX"), ("XPAIR", "WORD"), ("PAIR", "WORD"))
+OVERLAP_ELEMS = (["a"], ["b"], ["a", ":", "b"], ["b", ":", "a"])
+
+
+def overlap_parser(names, order):
+    long_s, short_s = names
+    prods = {"E": [("@", "SEQ", ";")], "SEQ": impl.ProdSequence(long_s, short_s),
+             long_s: [(short_s, ":", short_s)]}
+    if short_s != "WORD":
+        prods[short_s] = [("WORD",)]
+    if order == "bottom-up":
+        prods = dict(reversed(list(prods.items())))
+    return impl.LLParser(TOKENIZER, synonyms=dict(SYNONYMS), span_matchers=dict(SPAN), productions=prods)
+
+
+def _leaves(x, out):
+    if T._is_telem(x):
+        _leaves(x.value, out)
+    elif isinstance(x, list):
+        for i in x:
+            _leaves(i, out)
+    elif isinstance(x, str):
+        out.append(x)
+    return out
+
+
+def overlap_judge(parser, data, layout_name, acc):
+    text = T.layout(["@"] + [t for e in data for t in e] + [";"], layout_name)
+    acc.trans()
+    try:
+        root = parser.parse(text)
+    except impl.Error as e:
+        return ("valid-text-rejected", f"text denoting the data was rejected with {type(e).__name__}", text, repr(data))
+    except Exception as e:  # noqa
+        return ("exception:" + type(e).__name__, f"parse raised {type(e).__name__}: {str(e)[:160]}", text, repr(data))
+    seq = root.get("SEQ") if hasattr(root, "get") else None
+    if seq is None or not isinstance(seq.value, list):
+        return ("sequence-not-a-list-of-elements", "no sequence value in the result", repr(root)[:200], repr(data))
+    got = [_leaves(e, []) for e in seq.value]
+    if got != data:
+        lab = "sequence-elements-split-differently" if sum(got, []) == sum(data, []) else T.diff(tuple(map(tuple, data)), tuple(map(tuple, got)))
+        return (lab, "the sequence does not consist of the denoted elements", repr(got), repr(data))
+    return None
+
+
+def run_overlap_shard(shard, tier, acc):
+    _, names, order = shard
+    parser = overlap_parser(names, order)
+    feats = ["family:sequence-with-overlapping-alternatives", "order:" + order,
+             "overlap:short-alternative-is-a-" + ("terminal" if names[1] == "WORD" else "non-terminal"),
+             "overlap:declared-order-" + ("is" if list(names) == sorted(names) else "is-not") + "-alphabetical"]
+    import itertools
+    for n in range(0, 4):
+        for data in itertools.product(OVERLAP_ELEMS, repeat=n):
+            data = [list(e) for e in data]
+            f = list(feats)
+            if any(len(e) == 3 for e in data):
+                f.append("overlap:long-alternative-matched")
+            if any(len(e) == 1 for e in data):
+                f.append("overlap:short-alternative-matched")
+            for lay in ("mixed", "tight"):
+                v = overlap_judge(parser, data, lay, acc)
+                acc.case(nontrivial=any(len(e) == 3 for e in data), features=f + ["layout:" + lay],
+                         outcome="ok:overlap-sequence" if v is None else v[0])
+                if v is not None:
+                    acc.violation("C05:" + v[0], {"family": "overlap", "names": list(names), "order": order,
+                                                  "data": data, "layout": lay}, v[1], v[2], v[3])
+    acc.sample({"family": "overlap", "names": list(names), "order": order, "data": [["a", ":", "b"], ["b"]]})
+
+
 # ------------------------------------------------------------------------------- one case
 def judge(parser, lopt, mopt, data, layout_name, fd_mode, acc):
     """-> (outcome, features, violation or None); violation = (sig, msg, obs, exp)."""
@@ -772,6 +857,9 @@ def run_shard(shard, tier, seed, acc):
     if shard[0] == "decl":
         run_decl_shard(shard, tier, acc)
         return
+    if shard[0] == "overlap":
+        run_overlap_shard(shard, tier, acc)
+        return
     kind, lk, mk, sv, order = shard[:5]
     lopt, mopt = _lopt(lk), _mopt(mk)
     stmts = kind in ("stmt", "stmtbig")
@@ -809,6 +897,12 @@ def run_shard(shard, tier, seed, acc):
 
 
 def replay(case, acc):
+    if case.get("family") == "overlap":
+        acc.case()
+        v = overlap_judge(overlap_parser(case["names"], case["order"]), case["data"], case["layout"], acc)
+        if v is not None:
+            acc.violation("C05:" + v[0], case, v[1], v[2], v[3])
+        return
     if case.get("family") == "decl":
         acc.case()
         v = decl_judge(decl_parser(case["variant"], case["order"]), case["variant"], case["data"], case["layout"], acc)
